@@ -26,7 +26,7 @@ import os
 import vlib
 from vlib import zlit, bytes_lit, coq_list, coq_opt
 
-IMPORTS = ['SV.C16.TailF', 'SV.C16.Chunked', 'SV.C16.Channel']
+IMPORTS = ['SV.C16.TailF', 'SV.C16.Chunked', 'SV.C16.Channel', 'SV.C16.LogRead', 'SV.C16.RpcFiles']
 LEVEL = 'proof'
 
 
@@ -405,6 +405,9 @@ def run_part(chk, workdir):
     finally:
         cbed.close()
 
+    # ---- 3d. the log RPCs for channels WITHOUT a readable log (file-system oracle)
+    rf_read, rf_tail, rf_clear = _rpc_worlds(chk, os.path.join(wd, 'rpcw'), count, distinct)
+
     # ---- 4. hex
     hex_cases = ['(%s, %s)' % (zlit(n), bytes_lit(b'%x' % n)) for n in
                  list(range(0, 40)) + [255, 256, 4095, 4096, 65535, 65536, 1 << 20, (1 << 31) - 1, 1 << 40]
@@ -417,6 +420,9 @@ def run_part(chk, workdir):
         ('decode', 'dec_case', 'check_dec_case', dec_cases, dec_meta),
         ('encode', 'list bytes * bytes', 'check_encode', enc_cases, enc_meta),
         ('channel', 'chan_case', 'check_chan_case', chan_cases, chan_meta),
+        ('rpcfs_read', 'bool * Z * bytes * Z * Z * rpc_read', 'check_rpc_read_fs', rf_read[0], rf_read[1]),
+        ('rpcfs_tail', 'bool * Z * bytes * Z * Z * rpc_tail', 'check_rpc_tail_fs', rf_tail[0], rf_tail[1]),
+        ('rpcfs_clear', 'bool * Z * rpc_clear', 'check_rpc_clear', rf_clear[0], rf_clear[1]),
         ('hex', 'hexline_case', 'check_hexline', hex_cases, hex_cases),
     ]:
         bad, errs = vlib.coq_compare(IMPORTS, ctype, fn, cases, wd, tag='c16b_' + name, shard=60)
@@ -469,6 +475,210 @@ def run_part(chk, workdir):
         cov['evaluations'] += total
         cov['distinct_nontrivial'] += len(distinct)
         cov['traces_validated_against_impl'] = cov.get('traces_validated_against_impl', 0) + total
+
+
+class _W(object):
+    """Minimal supervisord for the log RPCs: one process g:p, a main log."""
+
+    def __init__(self, removelogs_error=False):
+        from supervisor import states
+        from supervisor.options import ServerOptions
+
+        class Logger(object):
+            handlers = []
+
+            def __getattr__(self, name):
+                return lambda *a, **k: None
+
+        class PConfig(object):
+            name = 'p'
+            stdout_logfile = None
+            stderr_logfile = None
+
+        outer = self
+
+        class Proc(object):
+            config = PConfig()
+
+            def removelogs(self):
+                outer.removed.append('p')
+                if outer.removelogs_error:
+                    raise OSError(21, 'Is a directory')
+
+        class GConfig(object):
+            name = 'g'
+
+        class Group(object):
+            config = GConfig()
+            processes = {'p': Proc()}
+
+        class Options(object):
+            mood = states.SupervisorStates.RUNNING
+            logfile = None
+            logger = Logger()
+            # the real methods of ServerOptions (os.path.exists / os.remove)
+            exists = ServerOptions.exists
+            remove = ServerOptions.remove
+
+        self.options = Options()
+        self.process_groups = {'g': Group()}
+        self.pconfig = Proc.config
+        self.removed = []
+        self.removelogs_error = removelogs_error
+
+
+def _rpc_worlds(chk, wd, count, distinct):
+    """Every read*/tail*/clear* method against every kind of log configuration:
+    None, a name that does not exist, an empty file, a file with content, a
+    directory in place of the file - through the handler's dispatch AND the
+    full XML-RPC path.  Any answer that is not a value or a fault is a
+    violation whose replay is the call."""
+    from supervisor import rpcinterface
+    from supervisor.xmlrpc import Faults
+    from rpcstack import RpcStack
+    os.makedirs(wd, exist_ok=True)
+    FAULTS = {Faults.BAD_ARGUMENTS: 'BAD_ARGUMENTS', Faults.NO_FILE: 'NO_FILE', Faults.BAD_NAME: 'BAD_NAME',
+              Faults.FAILED: 'FAILED'}
+    content = b'0123456789abcdefghij\nsecond line\n'
+    kinds = [('none', None, 0, b''), ('missing', 'missing.log', 0, b''), ('empty', 'empty.log', 2, b''),
+             ('file', 'file.log', 2, content), ('dir', 'adir', 1, b'')]
+    pairs = [(0, 0), (0, 5), (2, 3), (-3, 0), (-1, 1), (0, -1), (100, 0), (5, 100), (-100, 0), (33, 1)]
+    read_cases, read_meta, tail_cases, tail_meta, clear_cases, clear_meta = [], [], [], [], [], []
+    w = _W()
+    iface = rpcinterface.SupervisorNamespaceRPCInterface(w)
+    stack = RpcStack(w, [('supervisor', iface)])
+
+    def place(kind, rel, data):
+        if rel is None:
+            return None
+        path = os.path.join(wd, rel)
+        if os.path.isdir(path):
+            os.rmdir(path)
+        elif os.path.exists(path):
+            os.remove(path)
+        if kind in ('empty', 'file'):
+            with open(path, 'wb') as f:
+                f.write(data)
+        elif kind == 'dir':
+            os.mkdir(path)
+        return path
+
+    def both(method, params, world):
+        d = stack.direct(method, params)
+        x = stack.call(method, params)
+        call = {'method': method, 'params': list(params), 'log_configuration': world}
+        for how, r in (('handler dispatch', d), ('XML-RPC request', x)):
+            if r[0] not in ('value', 'fault'):
+                chk.violation({'kind': 'PROPERTY VIOLATED: a log RPC neither succeeded nor answered a fault', 'call': call,
+                               'via': how, 'answer': repr(r),
+                               'expected': 'NO_FILE when no log is configured or the file does not exist, FAILED for an '
+                                           'unreadable name, otherwise the requested bytes / BAD_ARGUMENTS'})
+                return None
+        dv = ('value', list(d[1])) if d[0] == 'value' and isinstance(d[1], tuple) else d
+        if dv != x:
+            chk.violation({'kind': 'XML-RPC response differs from the method result', 'call': call, 'direct': repr(d),
+                           'xml': repr(x)})
+            return None
+        return dv
+
+    def read_term(r):
+        if r[0] == 'value' and isinstance(r[1], str):
+            return '(RValue %s)' % bytes_lit(r[1].encode('utf-8'))
+        if r[0] == 'fault' and r[1] in FAULTS:
+            return '(RFault %s)' % FAULTS[r[1]]
+        return None
+
+    for kind, rel, code, data in kinds:
+        for target in ('main', 'stdout', 'stderr'):
+            path = place(kind, rel, data)
+            w.options.logfile = None
+            w.pconfig.stdout_logfile = None
+            w.pconfig.stderr_logfile = None
+            if target == 'main':
+                w.options.logfile = path
+                reads = [('supervisor.readLog', ()), ('supervisor.readMainLog', ())]
+                tails = []
+            elif target == 'stdout':
+                w.pconfig.stdout_logfile = path
+                reads = [('supervisor.readProcessStdoutLog', ('g:p',)), ('supervisor.readProcessLog', ('g:p',))]
+                tails = [('supervisor.tailProcessStdoutLog', ('g:p',)), ('supervisor.tailProcessLog', ('g:p',))]
+            else:
+                w.pconfig.stderr_logfile = path
+                reads = [('supervisor.readProcessStderrLog', ('g:p',))]
+                tails = [('supervisor.tailProcessStderrLog', ('g:p',))]
+            world = '%s log: %s' % (target, kind)
+            cfg = 'false' if kind == 'none' else 'true'
+            for off, ln in pairs:
+                for method, pre in reads:
+                    r = both(method, pre + (off, ln), world)
+                    count('rpcfs:read:' + kind)
+                    if r is None:
+                        continue
+                    t = read_term(r)
+                    if t is None:
+                        chk.violation({'kind': 'PROPERTY VIOLATED: read RPC answered neither the bytes nor one of the documented '
+                                       'faults (BAD_ARGUMENTS, NO_FILE, FAILED, BAD_NAME)',
+                                       'call': {'method': method, 'params': list(pre) + [off, ln], 'log_configuration': world},
+                                       'answer': repr(r),
+                                       'expected': 'NO_FILE when no log is configured or the file does not exist'})
+                        continue
+                    read_cases.append('(%s, %s, %s, %s, %s, %s)' % (cfg, zlit(code), bytes_lit(data), zlit(off), zlit(ln), t))
+                    read_meta.append({'method': method, 'offset': off, 'length': ln, 'log_configuration': world,
+                                      'answer': repr(r)})
+                    distinct.add(('rpcfs', method, kind, r[0], r[1] if r[0] == 'fault' else len(r[1])))
+                for method, pre in tails:
+                    r = both(method, pre + (off, ln), world)
+                    count('rpcfs:tail:' + kind)
+                    if r is None:
+                        continue
+                    if r[0] == 'value' and isinstance(r[1], list) and len(r[1]) == 3:
+                        t = '(TValue %s %s %s)' % (bytes_lit(r[1][0].encode('utf-8')), zlit(r[1][1]), 'true' if r[1][2] else 'false')
+                    else:
+                        chk.violation({'kind': 'tail RPC gave an undocumented answer', 'method': method,
+                                       'params': [off, ln], 'log_configuration': world, 'answer': repr(r)})
+                        continue
+                    tail_cases.append('(%s, %s, %s, %s, %s, %s)' % (cfg, zlit(code), bytes_lit(data), zlit(off), zlit(ln), t))
+                    tail_meta.append({'method': method, 'offset': off, 'length': ln, 'log_configuration': world,
+                                      'answer': repr(r)})
+                    distinct.add(('rpcfs', method, kind, tuple(r[1][1:]), len(r[1][0])))
+            # clear*: the main log through the real options.exists/remove; process logs through removelogs()
+            if target == 'main':
+                for via in ('direct', 'xml'):
+                    path = place(kind, rel, data)
+                    w.options.logfile = path
+                    r = stack.direct('supervisor.clearLog', ()) if via == 'direct' else stack.call('supervisor.clearLog', ())
+                    count('rpcfs:clearLog:' + kind)
+                    if r == ('value', True):
+                        t = 'CTrue'
+                        if os.path.exists(path):
+                            chk.violation({'kind': 'clearLog answered True but the main log is still there',
+                                           'log_configuration': world})
+                    elif r[0] == 'fault' and r[1] in FAULTS:
+                        t = '(CFault %s)' % FAULTS[r[1]]
+                    else:
+                        chk.violation({'kind': 'PROPERTY VIOLATED: a log RPC neither succeeded nor answered a fault',
+                                       'call': {'method': 'supervisor.clearLog', 'params': [], 'log_configuration': world},
+                                       'via': via, 'answer': repr(r)})
+                        continue
+                    clear_cases.append('(%s, %s, %s)' % (cfg, zlit(code), t))
+                    clear_meta.append({'method': 'clearLog', 'log_configuration': world, 'answer': repr(r)})
+            else:
+                for name, err in (('g:p', False), ('g:p', True), ('nosuch', False), ('g:nosuch', False)):
+                    w.removelogs_error = err
+                    del w.removed[:]
+                    for method in ('supervisor.clearProcessLogs', 'supervisor.clearProcessLog'):
+                        r = both(method, (name,), world + (' (removelogs raises OSError)' if err else ''))
+                        count('rpcfs:clearProcessLogs')
+                        if r is None:
+                            continue
+                        want = (('fault', Faults.BAD_NAME) if 'nosuch' in name else
+                                ('fault', Faults.FAILED) if err else ('value', True))
+                        if r != want:
+                            chk.violation({'kind': 'clearProcessLogs answered differently from its documentation',
+                                           'name': name, 'answer': repr(r), 'expected': repr(want),
+                                           'log_configuration': world})
+                w.removelogs_error = False
+    return (read_cases, read_meta), (tail_cases, tail_meta), (clear_cases, clear_meta)
 
 
 def _first_diff(a, b):
